@@ -70,7 +70,7 @@ pub async fn semantic_tokens(
             line: 0,
             character: 0,
         };
-        let semantic_tokens: Vec<SemanticToken> = ast
+        let mut semantic_tokens: Vec<SemanticToken> = ast
             .global_declarations
             .iter()
             .flat_map(|gd| {
@@ -85,6 +85,14 @@ pub async fn semantic_tokens(
                 }
             })
             .collect();
+        // comments behind the last declaration belong to no declaration
+        let trailing = AstInfo::new(ast.to_range().end.min(tokens.len())..tokens.len());
+        semantic_tokens.extend(collect_error(
+            &trailing,
+            &text,
+            &tokens,
+            &mut previous_token_pos,
+        ));
         Ok(Some(SemanticTokens {
             result_id: None,
             data: semantic_tokens,
